@@ -320,7 +320,7 @@ def compare_styles(acc, case, ref_lines_all, notes, obs_lines_all, teletext):
     oc = [(ch, st) for ch, st in ol if ch != " "]
     if len(rc) != len(oc):
       continue
-    where = "first-row" if li == 0 else "after-newline"
+    where = "first-row" if rl is ref_lines_all[0] else "after-newline"
     if carry_from is not None and li >= carry_from:
       where = "open-newline-carry"
     for ci, (c, (ch, st)) in enumerate(zip(rc, oc)):
